@@ -440,6 +440,9 @@ C04_Clauses(cfg, S) ==
                        THEN HasRet(S[j]) /\ (RetOf(S[j]).iserr => (FailedIdx(j) # {} /\ LET m == CHOOSE i \in FailedIdx(j) : \A i2 \in FailedIdx(j) : i2 <= i
                                                                                          IN FailTok(B(j)[m]) \in Range(RetOf(S[j]).errs)))
                        ELSE \A i \in FailedIdx(j) : HasRet(S[j]) /\ FailTok(B(j)[i]) \in Range(RetOf(S[j]).errs),
+   \* "after retries and fallback": a node that has a fallback and has used up its budget is not finished before the
+   \* fallback has been asked - its answer is the outcome of the phase
+   fallbackAsked |-> C02_Clauses(cfg, S).fbAlwaysAfterN,
    \* after the failure no further user callback of that run
    failStop     |-> \A j \in 1..Len(S) : (NoCancel(j) /\ ~cfg.flowretry) =>
                        \A i \in FailedIdx(j) : i = Len(B(j)) /\ Last(B(j)[i].evs).out = "err"
